@@ -124,8 +124,30 @@ def gnReplacement (n : GN) (g : Nat) : List Op :=
 def gnRewrittenPrefix (n : GN) (g : Nat) : Op :=
   .groupNorm { n with eps := none, sLen := g * (n.c / g), bLen := g * (n.c / g), sVis := .missing, bVis := .missing }
 
-/-- `groupnormalization_20_21` (order of the tests as in the source) -/
+/-- The nodes the adapter records (since 090a933) when the layout of scale/bias cannot be decided statically:
+each value is expanded by the run-time ratio `C / len(value)` (`Shape`, `Div`, `Concat` feed the same
+`Reshape ; Expand ; Reshape`).  Run-time lengths afterwards: `len · (C / len)`. -/
+def gnDynReplacement (n : GN) : List Op :=
+  [.const false [-1, 1], .const false [-1], .const false [1], .plain "Shape",
+   .plain "Shape", .plain "Div", .plain "Reshape", .plain "Concat", .plain "Expand", .plain "Reshape",
+   .plain "Shape", .plain "Div", .plain "Reshape", .plain "Concat", .plain "Expand", .plain "Reshape",
+   .groupNorm { n with sLen := n.sLen * (n.c / n.sLen), bLen := n.bLen * (n.c / n.bLen),
+                       sVis := .missing, bVis := .missing }]
+
+/-- `groupnormalization_20_21` (order of the tests as in the source, since 090a933) -/
 def groupnormalization_20_21 : Op → AdaptRes
+  | .groupNorm n =>
+    if !(n.hasX && n.hasScale && n.hasBias) then .raised
+    else match n.groups with
+      | none => .raised
+      | some g =>
+        if !(n.xVis = .known && n.sVis = .known && n.bVis = .known) then .replaced (gnDynReplacement n)
+        else if g ≠ n.c && g = n.sLen && g = n.bLen then .replaced (gnReplacement n g) else .retNone
+  | _ => .retNone
+
+/-- The adapter before 090a933 (kept for the regression theorems only): it raised when `x` had no shape and
+returned `None` when the channel dimension or the shape of scale/bias was not static. -/
+def groupnormalization_20_21_prefix : Op → AdaptRes
   | .groupNorm n =>
     if !(n.hasX && n.hasScale && n.hasBias) then .raised
     else if n.xVis = .missing then .raised
@@ -269,6 +291,12 @@ def NodeD : Nat → Type
   | d + 1 => @instInnerNode (NodeD d) (innerD d)
 
 instance (d : Nat) : Inner (NodeD d) := innerD d
+
+@[instance_reducible] def decEqD : (d : Nat) → DecidableEq (NodeD d)
+  | 0 => inferInstanceAs (DecidableEq Leaf)
+  | d + 1 => @instDecidableEqNode (NodeD d) (decEqD d)
+
+instance (d : Nat) : DecidableEq (NodeD d) := decEqD d
 
 /-! ## Model level -/
 
@@ -496,6 +524,7 @@ def Op.meaning : Op → Nat → Option Sem
     | none => none
     | some g =>
       if !(n.hasX && n.hasScale && n.hasBias) then none
+      else if g * (n.c / g) ≠ n.c then none          -- the channels must split evenly into the groups
       else if v ≤ 20 then
         (if n.sLen = g ∧ n.bLen = g then some (.gn g (n.eps.getD "1e-05") n.c) else none)
       else
@@ -504,7 +533,7 @@ def Op.meaning : Op → Nat → Option Sem
 /-- Nodes an adapter inserts to feed the rewritten node (they carry no meaning of their own). -/
 def Op.isAux : Op → Bool
   | .const _ _ => true
-  | .plain n => n == "Reshape" || n == "Expand"
+  | .plain n => n == "Reshape" || n == "Expand" || n == "Shape" || n == "Div" || n == "Concat"
   | _ => false
 
 /-- Meanings (under `μ`, read at opset `v`) of the non-auxiliary operators of a list, in order. -/
@@ -591,6 +620,30 @@ structure SelfConsistent {β} (μ : Op → Nat → β) (s : Nat) {d : Nat} (m : 
   noAi : m.aionnx = none
   inlined : m.funcs = []
   nodes : ∀ n ∈ m.nodes, SrcD μ s (d + 1) n
+
+/-- A node of a *valid* model declaring `s`: written for `s`, no reference attribute, and a valid operator
+form at the opset it is read at.  Nothing is asked of the adapters. -/
+structure ValidLeaf (s : Nat) (l : Leaf) : Prop where
+  ver : l.dflt = true → l.eff s = s
+  noRef : l.dflt = true → l.refAttr = false
+  valid : (l.op.meaning (l.readAt s)).isSome
+
+structure ValidNode {α} (s : Nat) (Q : α → Prop) (n : Node α) : Prop where
+  leaf : ValidLeaf s n.leaf
+  ctrl : n.bodies ≠ [] → ∃ name, n.leaf.op = .plain name
+  bodies : ∀ b ∈ n.bodies, ∀ a ∈ b, Q a
+  customFlat : n.leaf.dflt = false → n.bodies = []
+
+def ValidD (s : Nat) : (d : Nat) → NodeD d → Prop
+  | 0 => fun l => ValidLeaf s l
+  | d + 1 => fun n => ValidNode (α := NodeD d) s (ValidD s d) n
+
+/-- The inputs the property quantifies over: a valid, self-consistent model at opset `s` (after inlining). -/
+structure ValidModel (s : Nat) {d : Nat} (m : Model (NodeD d)) : Prop where
+  declared : m.declared = some s
+  noAi : m.aionnx = none
+  inlined : m.funcs = []
+  nodes : ∀ n ∈ m.nodes, ValidD s (d + 1) n
 
 /-- Every default-domain node of the model (subgraphs of every depth included) is written for `t`. -/
 def AllAt {α} [Inner α] (t : Nat) (ns : List (Node α)) : Prop :=
